@@ -33,7 +33,7 @@ impl Prop for C02 {
         500
     }
     fn cases(&self, tier: Tier) -> u32 {
-        tier.pick(40_000, 1_000_000)
+        tier.pick(400_000, 8_000_000)
     }
     fn decode(&self, choices: &[u32], tier: Tier) -> Value {
         let c = decode_case(choices, tier, &opts(tier), 15, &[4, 4, 1]);
